@@ -10,9 +10,24 @@ EDGE_KINDS = ["direct", "optional", "list", "dict", "tuplevar", "pipe", "nonefir
 CLOSING_KINDS = ["optional", "list", "dict", "tuplevar", "pipe", "nonefirst", "unionnone"]  # kinds through which a finite value can end
 
 _COUNTER = [0]
+STYLE_COUNTS: dict = {}
 
 
-def ann(kind, target):
+def ann(kind, target, quoted=False):
+    if quoted:
+        # evaluated annotations (no PEP 563): the class is named by a string where it stands - inside the generic for the typing /
+        # builtin constructors, the whole annotation for the PEP 604 spellings (a str has no `|`)
+        q = repr(target)
+        return {
+            "direct": q,
+            "optional": f"typing.Optional[{q}]",
+            "list": f"list[{q}]",
+            "dict": f"dict[str, {q}]",
+            "tuplevar": f"tuple[{q}, ...]",
+            "pipe": repr(f"{target} | None"),
+            "nonefirst": repr(f"None | {target}"),
+            "unionnone": f"typing.Union[None, {q}]",
+        }[kind]
     return {
         "direct": target,
         "optional": f"typing.Optional[{target}]",
@@ -26,7 +41,7 @@ def ann(kind, target):
 
 
 class Topology:
-    def __init__(self, n, edges, nested=False, flavour="dataclass", tag="", payload=True, other=None, foreign_edges=()):
+    def __init__(self, n, edges, nested=False, flavour="dataclass", tag="", payload=True, other=None, foreign_edges=(), style="postponed"):
         """edges: list of (i, j, kind). `other`: an already built Topology whose (same-named) classes are reached through
         foreign_edges [(i, j, kind)] as `<other module>.Cj`."""
         _COUNTER[0] += 1
@@ -34,15 +49,20 @@ class Topology:
         self.name = f"vtopo_{_COUNTER[0]}_{tag}"
         self.module = None
         self.other, self.foreign_edges = other, list(foreign_edges)
+        # "postponed": `from __future__ import annotations`, every hint a string; "quoted": evaluated annotations, classes of this
+        # module named by string literals inside the annotation (classes of the other, already imported module by the object)
+        self.style = style
+        STYLE_COUNTS["topologies_" + style] = STYLE_COUNTS.get("topologies_" + style, 0) + 1
 
     def cname(self, i):
         return f"Outer.C{i}" if self.nested else f"C{i}"
 
     @property
     def source(self):
-        lines = ["from __future__ import annotations", "import dataclasses, typing", ""]
+        quoted = self.style == "quoted"
+        lines = ["import dataclasses, typing", ""] if quoted else ["from __future__ import annotations", "import dataclasses, typing", ""]
         if self.other is not None:
-            lines.insert(2, f"import {self.other.name}")
+            lines.insert(len(lines) - 1, f"import {self.other.name}")
         ind = "    " if self.nested else ""
         if self.nested:
             lines.append("class Outer:")
@@ -59,7 +79,7 @@ class Topology:
                 body.append(f"{ind}    v: int")
             for (a, b, kind) in self.edges:
                 if a == i:
-                    body.append(f"{ind}    e{b}_{kind}: {ann(kind, self.cname(b))}")
+                    body.append(f"{ind}    e{b}_{kind}: {ann(kind, self.cname(b), quoted)}")
             for (a, b, kind) in self.foreign_edges:
                 if a == i:
                     body.append(f"{ind}    x{b}_{kind}: {ann(kind, self.other.name + '.' + self.other.cname(b))}")
